@@ -1778,6 +1778,7 @@ def _read_comment(ctx: ReaderContext) -> LispReaderForm:
         reader.advance()
 
 
+@_with_loc
 def _read_var_macro(ctx: ReaderContext) -> llist.PersistentList:
     """Read a var-quoted form #'x which transforms to the form (var x)."""
     assert ctx.reader.peek() == "'"
